@@ -134,6 +134,9 @@ func (mt *MarkdownTable) RenderTo(w io.Writer) error {
 		}
 		var al align.Alignment
 		alRaw := mt.Column(i + 1).GetProperty(align.PropertyType)
+		if alRaw == nil {
+			alRaw = mt.Column(0).GetProperty(align.PropertyType)
+		}
 		if alRaw != nil {
 			al = alRaw.(align.Alignment)
 			alignments[i] = al
